@@ -229,10 +229,93 @@ def v5(ctx, rid):
         ctx.bad(rid, key, crc.where(), 'the header CRC is not computed after the offset patch / not the one patched and returned: stored headers fail validation or carry a stale offset')
 
 
+def v6(ctx, rid):
+    """a record written as two buffers (head, then data) is written head first: the OS write of the second buffer of
+    WritableData::Double is sequenced after the ok completion of the write of the first one (on an O_APPEND file the kernel
+    appends in call order, whatever offset is passed)"""
+    prog = ctx.prog
+    n = 0
+    for f in prog.fns.values():
+        if f.root != f.id or not f.file.startswith('src/io/'):
+            continue
+        fam = [prog.fns[x] for x in prog.family(f.id)]
+        writes = []
+        for g in fam:
+            for c in g.calls:
+                if prims.is_raw(c, prims.RAW_WRITE_AT) and len(c.args) > 1:
+                    idx = None
+                    for o in core.origins_ip(prog, g, c.args[1], depth=0):
+                        if o.kind == 'field' or o.kind == 'arg' or o.kind == 'upvar':
+                            pass
+                    # which field of the Double variant does the buffer come from
+                    l = op_local(c.args[1])
+                    seen = set()
+                    work = [(g, l)]
+                    while work:
+                        gg, ll = work.pop()
+                        if (gg.id, ll) in seen or ll is None:
+                            continue
+                        seen.add((gg.id, ll))
+                        for (bb, si, kind, r) in gg.defs().get(ll, []):
+                            if kind == 'assign' and r['k'] in ('use', 'ref'):
+                                p = r['p'] if r['k'] == 'ref' else core.op_place(r['o'])
+                                if p is None:
+                                    continue
+                                vs = [e for e in p[1] if isinstance(e, dict) and 'v' in e]
+                                fs = [e for e in p[1] if isinstance(e, dict) and 'f' in e]
+                                if vs and vs[-1]['n'] == 'Double' and fs:
+                                    idx = fs[-1]['f']
+                                elif p[0] == 1 and gg.kind == 'Closure' and fs:
+                                    # upvar of a closure: follow to the construction site
+                                    for (par, pb, agg) in core.closure_construction_sites(prog, gg.id):
+                                        if fs[0]['f'] < len(agg['ops']):
+                                            work.append((par, op_local(agg['ops'][fs[0]['f']])))
+                                else:
+                                    work.append((gg, p[0]))
+                            elif kind == 'call' and r.name in ('deref', 'as_ref', 'borrow') and r.args:
+                                work.append((gg, op_local(r.args[0])))
+                    if idx is not None:
+                        writes.append((g, c, idx))
+        firsts = [(g, c) for (g, c, i) in writes if i == 0]
+        seconds = [(g, c) for (g, c, i) in writes if i == 1]
+        if not firsts and not seconds:
+            continue
+        n += 1
+        key = 'head-before-data|%s' % f.id
+        good = bool(firsts) and bool(seconds)
+        why = 'the two buffers of a Double record are not both written'
+        for (g2, c2) in seconds:
+            ok2 = False
+            for (g1, c1) in firsts:
+                if g1.id == g2.id:
+                    ob = core.ok_block(g1, c1)
+                    if ob is not None and c2.bb not in g1.reach_from([0], avoid_enter=[ob]):
+                        ok2 = True
+                else:
+                    # second write lives in a closure handed to and_then() of the first write's result
+                    carry = core.result_flow(g1, c1)
+                    for x in g1.calls:
+                        if x.name == 'and_then' and x.args and op_local(x.args[0]) in carry:
+                            for a in x.args[1:]:
+                                la = op_local(a)
+                                if la is not None and g1.locals[la].get('h') == 'closure' and g1.locals[la]['a'][0] == g2.id:
+                                    ok2 = True
+            if not ok2:
+                good = False
+                why = 'the data buffer of a two-buffer record can reach the OS before (or regardless of) the successful write of its head: on a reopened (O_APPEND) blob the bytes land in call order and the record is stored as data-then-header'
+        if good:
+            ctx.ok(rid, key, firsts[0][1].where(), 'data buffer written only after the head was written successfully')
+        else:
+            ctx.bad(rid, key, (seconds or firsts)[0][1].where(), why)
+    if n < 1:
+        raise core.AnchorLost('two-buffer write site')
+
+
 RULES = [
     Rule('C05.V1', 'no record data leaves a reading function without an ok data-checksum audit', v1, 4),
     Rule('C05.V2', 'a header deserialised from file bytes is accepted only after magic + header-CRC validation', v2, 3),
     Rule('C05.V3', 'the header patch positions equal the sizes of the trailing fields of record::Header', v3, 3),
     Rule('C05.V4', 'the checksum audits return Ok only on the equal edge of computed vs stored CRC', v4, 2),
+    Rule('C05.V6', 'a two-buffer record is written head first: the data buffer follows the successful write of the head', v6, 1),
     Rule('C05.V5', 'the header CRC written at reservation time is computed after the offset was patched', v5, 1),
 ]
